@@ -46,6 +46,7 @@ func readAll(root *rootSpec, src io.Reader, maxReads int) (o readOutcome) {
 // frame boundary), and never panics.
 func runCutsMode() {
 	defer manyNamesFrameCase("C05")
+	defer arrayRegrowFrameCase("C05")
 	r := rng.FromEnv(105)
 	n := scale(64)
 	for i := 0; i < n; i++ {
